@@ -566,6 +566,17 @@ class ItemFactory:
                     )
                 return candidates[0]
 
+            # The procedure may be provided by one of these modules but excluded via a
+            # scoped config entry (``<module>#<name>``): this is not an external procedure
+            for module_name in module_names:
+                module_item = self.item_cache.get(module_name)
+                if (
+                    isinstance(module_item, ModuleItem) and
+                    proc_name in getattr(module_item.ir, 'subroutine_map', ()) and
+                    self._is_ignored(f'{module_name}#{proc_name}'.lower(), config, ignore)
+                ):
+                    return None
+
         # This is a call to a subroutine declared via header-included interface
         item_name = f'#{proc_name}'.lower()
         if self._is_ignored(item_name, config, ignore):
